@@ -24,7 +24,7 @@ RULE = ("random histories (<= 20 steps, thorough <= 60) over S2F33 / S2F35 / S2F
         "{1,2,3,'r'}, CEID in {1,2,3,20,999(unknown)}, VID in {1002,10,30,77(unknown)}, including duplicates inside one "
         "request, deletion of linked reports, unknown ids, empty lists, mixed define+delete and multi-entry requests with the "
         "offending entry first, in the middle or last; distinct by request sequence; "
-        "non-trivial when at least one define and one link were accepted")
+        "non-trivial when at least one define and one link were accepted; plus: the cycle define / link / enable / request, delete-all, define the same RPTID with other variables, link, enable, request")
 ASSUMPTIONS = ["where E5 leaves a choice (same RPTID twice in one S2F33, linking further reports to an already linked CEID, the "
                "same report twice in one link request, S2F37 with known and unknown CEIDs, enabling an event without links, "
                "deleting an undefined report) only 'refused without effect' or 'accepted leaving a consistent configuration' "
